@@ -5,7 +5,7 @@ use crate::fw::*;
 use bio::io::fasta::IndexedReader;
 
 pub struct C12;
-const N_DIRECTED: u64 = 14;
+const N_DIRECTED: u64 = 15;
 
 struct FileSpec {
     file: Vec<u8>,
@@ -406,6 +406,48 @@ impl Monitor for C12 {
         let maxlen = ctx.by_tier(300, 2000, 40_000);
         if g < N_DIRECTED {
             let crlf = g % 2 == 1;
+            if g == 14 {
+                // an index that promises far more than the file (or memory) holds: an error, not a panic or an abort
+                let file = b">big promise\nACGTACGTAC\nACGTACGTAC\nACGT\n".to_vec();
+                for (len, hi) in [(1u64 << 62, 1u64 << 62), (u64::MAX / 2, u64::MAX / 2), (1 << 40, 1 << 40), (1 << 62, 50)] {
+                    let fai = format!("big\t{}\t13\t10\t11\n", len);
+                    let f2 = file.clone();
+                    let r = guard(move || -> Result<(bool, bool, usize), String> {
+                        let mut ir = IndexedReader::new(std::io::Cursor::new(f2), fai.as_bytes()).map_err(|e| e.to_string())?;
+                        ir.fetch("big", 0, hi).map_err(|e| e.to_string())?;
+                        let mut buf = vec![];
+                        let read_failed = ir.read(&mut buf).is_err();
+                        ir.fetch("big", 0, hi).map_err(|e| e.to_string())?;
+                        let mut items = 0usize;
+                        let mut iter_failed = false;
+                        for b in ir.read_iter().map_err(|e| e.to_string())? {
+                            items += 1;
+                            if b.is_err() {
+                                iter_failed = true;
+                                break;
+                            }
+                            if items > 1000 {
+                                break;
+                            }
+                        }
+                        Ok((read_failed, iter_failed, items))
+                    });
+                    ctx.eval(2);
+                    let desc = |w: String| Obj::new().s("case", "index promises more than the file holds").u("indexed_length", len).u("requested_stop", hi).s("what", &w).done();
+                    match r {
+                        Err(p) => ctx.violation(&format!("ifasta:short-file:panic:{}", panic_site(&p)), desc(p)),
+                        Ok(Err(e)) => ctx.violation("ifasta:valid-request-rejected", desc(e)),
+                        Ok(Ok((rf, itf, items))) => {
+                            if !rf || !itf {
+                                ctx.violation("ifasta:short-file-not-reported", desc(format!("read() failed: {}, read_iter failed: {} after {} items", rf, itf, items)));
+                            }
+                        }
+                    }
+                }
+                ctx.count("indexes_promising_more_than_the_file_holds", 1);
+                ctx.shape(true, &("C12", "huge-promise"));
+                return;
+            }
             if g >= 12 {
                 // more than 2^16 lines in one record, and records starting beyond offset 2^16 / 2^17
                 if ctx.tiny() {
